@@ -142,3 +142,16 @@ func setErr() { ErrMutable = nil }
 
 // a sentinel error that some function assigns is not a constant
 func MutableSentinel() error { return ErrMutable }
+
+// [BitsCode] a struct literal that keeps a named slice outside a return: the literal and the variable would share
+type Pack struct{ xs []int }
+
+func LitAlias(s []int) int {
+	t := make([]int, 3)
+	p := Pack{xs: t}
+	t[0] = 5
+	return p.xs[0] + len(s)
+}
+
+// [BitsCode] int(u) of an arbitrary 64-bit unsigned value may overflow
+func BigConv(u uint64) int { return int(u + 1) }
